@@ -20,7 +20,7 @@ import (
 func FormatterEntries(p *core.Program) []*core.FuncDecl {
 	var out []*core.FuncDecl
 	for _, fd := range p.Funcs {
-		if (fd.Pkg.PkgPath == core.PkgConnlist && fd.Obj.Name() == "writeOutput") || (fd.Pkg.PkgPath == core.PkgDiff && fd.Obj.Name() == "writeDiffOutput") {
+		if (fd.Pkg.PkgPath == core.PkgConnlist && core.RefName(fd.Obj) == "writeOutput") || (fd.Pkg.PkgPath == core.PkgDiff && core.RefName(fd.Obj) == "writeDiffOutput") {
 			out = append(out, fd)
 		}
 	}
@@ -254,7 +254,7 @@ func PerRowEmission(p *core.Program, r *core.Report, rule string) {
 					}
 				case *ast.CallExpr:
 					if fn := core.Callee(info, x); fn != nil {
-						switch fn.Name() {
+						switch core.RefName(fn) {
 						case "Write", "WriteString", "Fprintf", "saveConnsWithIPs", "AddPeerToNsGroup":
 							return true
 						}
@@ -364,7 +364,7 @@ func ProjectionSharing(p *core.Program, r *core.Report, rule string) {
 	for _, e := range FormatterEntries(p) {
 		uses := false
 		for fn := range p.Reachable(e.Obj) {
-			if shared[fn.Name()] {
+			if shared[core.RefName(fn)] {
 				uses = true
 			}
 		}
@@ -406,10 +406,10 @@ func OrientationParity(p *core.Program, r *core.Report, rule string) {
 				return true
 			}
 			last := core.ExprStr(c.Args[len(c.Args)-1])
-			if headerFns[fn.Name()] {
+			if headerFns[core.RefName(fn)] {
 				hflags = append(hflags, last)
 			}
-			if rowFns[fn.Name()] {
+			if rowFns[core.RefName(fn)] {
 				rflags = append(rflags, last)
 			}
 			return true
@@ -433,7 +433,7 @@ func OrientationParity(p *core.Program, r *core.Report, rule string) {
 				return true
 			}
 			fn := core.Callee(info, c)
-			if fn == nil || fn.Name() != "writeExposureSubSection" {
+			if fn == nil || core.RefName(fn) != "writeExposureSubSection" {
 				return true
 			}
 			lines, _ := ast.Unparen(c.Args[0]).(*ast.CallExpr)
@@ -468,7 +468,7 @@ func OrientationParity(p *core.Program, r *core.Report, rule string) {
 			if !isC || len(c.Args) != 1 {
 				return
 			}
-			if fn := core.Callee(info, c); fn == nil || fn.Name() != "getMDHeader" {
+			if fn := core.Callee(info, c); fn == nil || core.RefName(fn) != "getMDHeader" {
 				return
 			}
 			nn++
@@ -507,7 +507,7 @@ func OrientationParity(p *core.Program, r *core.Report, rule string) {
 				}
 			}
 			ing := facts.Atom("b:" + w.PathOfVar(ingP))
-			peerName, repName := sig.Params().At(0).Name(), sig.Params().At(1).Name()
+			peerName, repName := core.RefName(sig.Params().At(0)), core.RefName(sig.Params().At(1))
 			switch {
 			case facts.Entails(f, ing):
 				ok = ok && vals["Src"] == repName && vals["Dst"] == peerName
@@ -579,7 +579,7 @@ func columnOrders(fd *core.FuncDecl) []string {
 		case *ast.CompositeLit:
 			record(x.Elts, f)
 		case *ast.CallExpr:
-			if fn := core.Callee(info, x); fn != nil && fn.Name() == "Sprintf" && len(x.Args) == 4 {
+			if fn := core.Callee(info, x); fn != nil && core.RefName(fn) == "Sprintf" && len(x.Args) == 4 {
 				record(x.Args[1:], f)
 			}
 		}
@@ -1002,7 +1002,7 @@ func ReturnCompleteness(p *core.Program, r *core.Report, rule string) {
 			}
 			switch o.Type().Underlying().(type) {
 			case *types.Map, *types.Slice, *types.Pointer:
-				outParam[o.Name()] = true
+				outParam[core.RefName(o)] = true
 				return true
 			}
 			return false
@@ -1183,7 +1183,7 @@ func ReturnCompleteness(p *core.Program, r *core.Report, rule string) {
 			if len(ret.Results) == 0 {
 				// named results
 				for i := 0; i < sig.Results().Len(); i++ {
-					if v := sig.Results().At(i); v.Name() != "" {
+					if v := sig.Results().At(i); core.RefName(v) != "" {
 						if ds, ok := defs[v]; ok {
 							for _, d := range ds {
 								if a := defStmt[d]; a != nil {
@@ -1243,7 +1243,7 @@ func ReturnCompleteness(p *core.Program, r *core.Report, rule string) {
 						if strings.HasPrefix(pin, "param#") {
 							k, _ := strconv.Atoi(strings.TrimPrefix(pin, "param#"))
 							if k < sig.Params().Len() {
-								pin = sig.Params().At(k).Name()
+								pin = core.RefName(sig.Params().At(k))
 							}
 						}
 						ri.pinned[pin] = true
@@ -1274,7 +1274,7 @@ func ReturnCompleteness(p *core.Program, r *core.Report, rule string) {
 				path = facts.StripVersions(path)
 				path = strings.TrimPrefix(path, "len(")
 				for _, v := range params {
-					nm := v.Name()
+					nm := core.RefName(v)
 					if path == nm || strings.HasPrefix(path, nm+".") || strings.HasPrefix(path, nm+"[") || strings.HasPrefix(path, nm+")") || strings.HasPrefix(path, nm+"=") {
 						if structParam[v] && strings.HasPrefix(path, nm+".") {
 							rest := strings.TrimPrefix(path, nm+".")
@@ -1293,7 +1293,7 @@ func ReturnCompleteness(p *core.Program, r *core.Report, rule string) {
 				}
 				// a local: pins what it was computed from
 				for o, ds := range defs {
-					nm := o.Name()
+					nm := core.RefName(o)
 					if path == nm || strings.HasPrefix(path, nm+"=") || strings.HasPrefix(path, nm+")") || strings.HasPrefix(path, nm+".") {
 						for _, d := range ds {
 							dep(d, map[types.Object]bool{o: true}, ri.pinned)
@@ -1349,11 +1349,11 @@ func ReturnCompleteness(p *core.Program, r *core.Report, rule string) {
 // not depend on parameter names.
 func positional(a string, sig *types.Signature) string {
 	repl := map[string]string{}
-	if sig.Recv() != nil && sig.Recv().Name() != "" {
-		repl[sig.Recv().Name()] = "recv"
+	if sig.Recv() != nil && core.RefName(sig.Recv()) != "" {
+		repl[core.RefName(sig.Recv())] = "recv"
 	}
 	for i := 0; i < sig.Params().Len(); i++ {
-		if nm := sig.Params().At(i).Name(); nm != "" && nm != "_" {
+		if nm := core.RefName(sig.Params().At(i)); nm != "" && nm != "_" {
 			repl[nm] = fmt.Sprintf("param#%d", i)
 		}
 	}
